@@ -85,8 +85,8 @@ static int bt_string(char * dst, size_t cap)
   void * bt[24];
   int i, n = backtrace(bt, 24), off = 0;
   dst[0] = 0;
-  for (i = 2; i < n && off + 20 < (int)cap; ++i)   /* skip bt_string's caller chain inside the wrapper */
-    off += snprintf(dst + off, cap - (size_t)off, "%s%lx", i > 2 ? "," : "", (unsigned long)(uintptr_t)bt[i]);
+  for (i = 0; i < n && off + 20 < (int)cap; ++i)   /* the check drops the frames of this file after symbolising */
+    off += snprintf(dst + off, cap - (size_t)off, "%s%lx", i ? "," : "", (unsigned long)(uintptr_t)bt[i]);
   return off;
 }
 
